@@ -71,15 +71,41 @@ def build_pool(chk, quick):
     p = os.path.join(d, 'bad-magic.wotreplay')
     open(p, 'wb').write(b'\x00\x01\x02\x03' + rng.randbytes(100))
     pool.append(p)
-    return d, pool
+    failing = pool[-3:]
+    # a real recording whose stream ends inside a packet header: play() is left by an exception in both modes, after real packets were processed
+    from replay_unpack.replay_reader import ReplayReader
+    src = pool[0]
+    info = ReplayReader(src).get_replay_data()
+    cut = len(info.decrypted_data) * 2 // 3
+    p = os.path.join(d, 'truncated.' + src.rsplit('.', 1)[-1])
+    open(p, 'wb').write(container.write_container(src.rsplit('.', 1)[-1], json.dumps(info.engine_data, ensure_ascii=False).encode('utf-8'), [],
+                                                   info.decrypted_data[:cut] + b'\x05\x00\x00'))
+    pool.append(p)
+    failing.append(p)
+    # build-specific siblings of one release (different definitions and controllers under one 3-component name)
+    siblings = []
+    for g, v in versions:
+        if g == 'wows' and v.count('_') == 3 and (g, v.rsplit('_', 1)[0]) in versions:
+            pair = []
+            for vv in (v.rsplit('_', 1)[0], v):
+                b, exp, err = battlecheck.make_battle(g, vv, chk.seed, rich=True)
+                if b is not None:
+                    ext, data = __import__('harness.gen.battle', fromlist=['x']).to_container(b)
+                    q = os.path.join(d, 'battle-%s-%s.%s' % (g, vv, ext))
+                    open(q, 'wb').write(data)
+                    pair.append(q)
+            if len(pair) == 2:
+                siblings.append(pair)
+                pool += [q for q in pair if q not in pool]
+    return d, pool, failing, siblings
 
 
 def run(chk, drv):
     quick = chk.tier == 'quick'
-    chk.cov['rule'] = ('sequences of 6 parse calls in one process drawn from recordings, synthetic battles of several versions and failing files, mixed '
-                       'modes; each result compared with two fresh-process results (different PYTHONHASHSEED). Non-trivial: >= 2 different versions or '
+    chk.cov['rule'] = ('sequences of 6 random parse calls in one process drawn from recordings, synthetic battles of several versions and failing files, '
+                       'mixed modes, plus directed pairs (every failing parse then another file; build-specific sibling versions in both orders); each result compared with two fresh-process results (different PYTHONHASHSEED). Non-trivial: >= 2 different versions or '
                        'a failing parse inside; distinct by the sequence of (file, mode).')
-    d, pool = build_pool(chk, quick)
+    d, pool, failing, siblings = build_pool(chk, quick)
     try:
         items = ['%s=%s' % (m, p) for p in pool for m in ('lenient', 'strict')]
         fresh = {}
@@ -98,6 +124,15 @@ def run(chk, drv):
             if i % 3 == 0:
                 seq[3] = seq[0]            # same file again after others
             seqs.append(seq)
+        # directed: every failing parse (both modes) followed by every other file (both modes); siblings in both orders
+        good = [p for p in pool if p not in failing]
+        for f in failing:
+            for fm in ('lenient', 'strict'):
+                for x in (good if not quick else rng.sample(good, min(len(good), 6))):
+                    seqs.append(['%s=%s' % (fm, f), '%s=%s' % (rng.choice(['lenient', 'strict']), x)])
+        for a, b in siblings:
+            for m in ('lenient', 'strict'):
+                seqs += [['%s=%s' % (m, a), '%s=%s' % (m, b)], ['%s=%s' % (m, b), '%s=%s' % (m, a)]]
         for seq, recs in common.pmap(_sequence, [(s, 7 + i) for i, s in enumerate(seqs)]):
             files = {s.split('=', 1)[1] for s in seq}
             chk.count(tuple(seq), nontrivial=len(files) >= 2, sample={'sequence': [os.path.basename(s) for s in seq]} if len(chk.cov['samples']) < 2 else None)
